@@ -27,6 +27,7 @@ class Rec(object):
         self.caller = None
         self.hof = None
         self.geno = list
+        self.vs = 1          # fitness values are raw / vs (vs a power of two): the model sees the raw integers
 
     def uid(self, o):
         k = id(o)
@@ -51,13 +52,14 @@ class quiet(object):
 
 
 def fitvals(ind):
+    """fitness values of an individual as the raw integers of the model (None = invalid)"""
     if not ind.fitness.valid:
         return None
-    vs = list(ind.fitness.values)
     out = []
-    for v in vs:
-        assert float(v) == int(v)
-        out.append(int(v))
+    for v in ind.fitness.values:
+        x = float(v) * REC.vs
+        assert x == int(x), (v, REC.vs)
+        out.append(int(x))
     return out
 
 
@@ -66,13 +68,33 @@ def describe(ind):
 
 
 def ev_pure(p, g):
-    """the evaluation function: depends on the genotype only (same formula as Corr.C03.ev_fun)"""
-    a, b, m, two = p
+    """the evaluation function in raw integers: depends on the genotype only (same formula as Corr.C03.ev_fun)"""
+    a, b, m, two = p[0], p[1], p[2], p[3]
+    off = p[4] if len(p) > 4 else 0
     s = sum((i + 1) * x for i, x in enumerate(g))
-    out = [(a * s + b) % m]
+    out = [(a * s + b) % m + off]
     if two:
         out.append(len(g) - sum(g))
     return out
+
+
+def to_values(raw, evtype="float"):
+    """what the user's evaluate returns for the raw integers: raw / vs, in several Python/numpy types"""
+    vs = REC.vs
+    if evtype == "int" and vs == 1:
+        return tuple(int(r) for r in raw)
+    fl = [r / vs for r in raw]
+    for r, f in zip(raw, fl):
+        assert f * vs == r
+    if evtype == "list":
+        return fl
+    if evtype == "npfloat":
+        import numpy
+        return tuple(numpy.float64(f) for f in fl)
+    if evtype == "nparray":
+        import numpy
+        return numpy.array(fl, dtype=numpy.float64)
+    return tuple(fl)
 
 
 class DrawCap(Exception):
@@ -108,8 +130,8 @@ class RandomProxy(object):
 # --------------------------------------------------------------------------------------------
 # running one case on the implementation
 # --------------------------------------------------------------------------------------------
-def make_fitness(base, w):
-    return type("C03Fit", (base.Fitness,), {"weights": tuple(float(x) for x in w)})
+def make_fitness(base, w, wscale=1):
+    return type("C03Fit", (base.Fitness,), {"weights": tuple(float(x) / wscale for x in w)})
 
 
 def make_list_ind(Fit):
@@ -143,12 +165,12 @@ def wrap_select(inner, is_best=False):
     return select
 
 
-def wrap_evaluate(p):
+def wrap_evaluate(p, evtype="float"):
     def evaluate(ind):
         with quiet():
             g = [int(x) for x in REC.geno(ind)]
             REC.ev.append(("evaluate", REC.uid(ind), g))
-            return tuple(float(v) for v in ev_pure(p, g))
+            return to_values(ev_pure(p, g), evtype)
     return evaluate
 
 
@@ -181,7 +203,7 @@ def wrap_mutate(inner):
     return mutate
 
 
-def make_stats(tools):
+def make_stats(tools, variant="snap"):
     class SnapStats(tools.Statistics):
         def compile(self, data):
             with quiet():
@@ -196,35 +218,51 @@ def make_stats(tools):
             if REC.hof is not None and len(REC.hof.items) > 0:
                 best = fitvals(REC.hof[0])
             REC.ev.append(("stats", snap, csnap, best))
-            return len([e for e in REC.ev if e[0] == "stats"]) - 1
+            return len(snap)
     st = SnapStats()
     st.register("snap", snapfunc)
+    if variant == "multi":
+        # the snapshotting object as one chapter of a MultiStatistics, beside an ordinary one
+        other = tools.Statistics(key=lambda ind: len(list(REC.geno(ind))))
+        other.register("maxsize", lambda v: max(v) if v else 0)
+        return tools.MultiStatistics(a=st, b=other)
     return st
 
 
-def make_hof(tools, maxsize):
-    class RecHof(tools.HallOfFame):
+def make_hof(tools, maxsize, variant="hof", similar=None):
+    base_cls = tools.ParetoFront if variant == "pareto" else tools.HallOfFame
+
+    class RecHof(base_cls):
         def update(self, population):
             with quiet():
                 REC.ev.append(("hof", [REC.uid(i) for i in population],
                                [bool(i.fitness.valid) for i in population]))
                 return super(RecHof, self).update(population)
-    return RecHof(maxsize)
+    kw = {} if similar is None else {"similar": similar}
+    return RecHof(**kw) if variant == "pareto" else RecHof(maxsize, **kw)
+
+
+CREATOR_COUNT = [0]
 
 
 def run_impl(cfg):
-    """Run one configuration on the implementation. Returns the observation dict (or {'raised': name})."""
+    """Run one configuration (one or several successive legs on the same objects) on the implementation.
+    Returns a list of (leg configuration, observation dict); an observation may be {'raised': ..} / {'skipped': ..}."""
     global REC
-    from deap import algorithms, base, tools, gp
+    import contextlib
+    import io
+    from deap import algorithms, base, tools, gp, creator
     REC = Rec()
-    kind = cfg["kind"]
+    REC.vs = cfg.get("vs", 1)
     w = cfg["weights"]
     p = tuple(cfg["evp"])
-    Fit = make_fitness(base, w)
+    Fit = make_fitness(base, w, cfg.get("wscale", 1))
     rng = pyrandom.Random(cfg["seed"])
     pyrandom.seed(cfg["seed"] + 1)            # the global generator used by real operators
+    legs = [cfg] + [dict(cfg, **leg) for leg in cfg.get("legs", [])]
+    any_harm = any(l["kind"] == "harm" for l in legs)
     tb = base.Toolbox()
-    tb.register("evaluate", wrap_evaluate(p))
+    tb.register("evaluate", wrap_evaluate(p, cfg.get("evtype", "float")))
     if cfg.get("map") == "eager":
         tb.register("map", lambda f, xs: [f(x) for x in xs])     # an order preserving map that is not lazy
     elif cfg.get("map") == "chunked":
@@ -237,6 +275,8 @@ def run_impl(cfg):
             return first + second
         tb.register("map", cmap)
     tree_mode = cfg.get("tree", False)
+    container = cfg.get("container", "plain")
+    similar = None
     if tree_mode:
         pset, codes = cfg["_pset"], cfg["_codes"]
         REC.geno = lambda ind: [codes[n.name] for n in list.__iter__(ind)]
@@ -251,9 +291,28 @@ def run_impl(cfg):
                     REC.ev.append(("len", REC.uid(self)))
                 return list.__len__(self)
         Ind = Tree
-    else:
+    elif container == "plain":
         REC.geno = lambda ind: list(list.__iter__(ind))
         Ind = make_list_ind(Fit)
+    else:
+        # the usual route: classes made by deap.creator (list / array.array typecode 'b' / numpy int8)
+        import array
+        import numpy
+        CREATOR_COUNT[0] += 1
+        fname, iname = "C03F%d" % CREATOR_COUNT[0], "C03I%d" % CREATOR_COUNT[0]
+        creator.create(fname, base.Fitness, weights=Fit.weights)
+        REC.geno = lambda ind: [int(x) for x in ind]
+        if container == "creator_list":
+            creator.create(iname, list, fitness=getattr(creator, fname))
+            Ind = getattr(creator, iname)
+        elif container == "creator_array_b":
+            creator.create(iname, array.array, typecode="b", fitness=getattr(creator, fname))
+            Ind = getattr(creator, iname)
+        else:
+            creator.create(iname, numpy.ndarray, fitness=getattr(creator, fname))
+            cls = getattr(creator, iname)
+            Ind = lambda g: cls(numpy.array(list(g), dtype=numpy.int8))  # noqa
+            similar = numpy.array_equal
 
     # ---- operators ----
     STYLES = ("inplace", "functional", "swapped", "fresh")
@@ -305,81 +364,100 @@ def run_impl(cfg):
             return Ind(list(a)),
         return a,
 
+    def cx_two_point_copy(ind1, ind2):
+        # the crossover recommended for numpy individuals (slices are views: copy before swapping)
+        size = len(ind1)
+        c1, c2 = sorted(rng.sample(range(size + 1), 2))
+        ind1[c1:c2], ind2[c1:c2] = ind2[c1:c2].copy(), ind1[c1:c2].copy()
+        return ind1, ind2
+
     ops = cfg.get("ops", "scripted")
     if tree_mode:
         tb.register("expr", gp.genHalfAndHalf, pset=pset, min_=1, max_=3)
         tb.register("expr_mut", gp.genFull, min_=0, max_=2)
         mate_in = gp.cxOnePoint
         mut_in = lambda ind: gp.mutUniform(ind, expr=tb.expr_mut, pset=pset)  # noqa
-    elif ops == "real":
+    elif container == "creator_numpy_int8":
+        mate_in = cx_two_point_copy
+        mut_in = lambda ind: tools.mutFlipBit(ind, indpb=0.3)  # noqa
+    elif ops == "real" or container == "creator_array_b":
         mate_in = tools.cxTwoPoint
         mut_in = lambda ind: tools.mutFlipBit(ind, indpb=0.3)  # noqa
     else:
         mate_in, mut_in = s_mate, s_mutate
-    if kind == "harm":
+    if any_harm:
         tb.register("mate", wrap_mate(mate_in))
         tb.register("mutate", wrap_mutate(mut_in))
         tb.register("clone", wrap_clone())
     else:
         tb.register("mate", mate_in)
         tb.register("mutate", mut_in)
-    selname = cfg.get("sel", "random")
-    if selname == "best":
-        sel_in = tools.selBest
-    elif selname == "tournament":
-        sel_in = lambda inds, k: tools.selTournament(inds, k, tournsize=2)  # noqa
-    elif selname == "firstk":
-        sel_in = lambda inds, k: list(inds[:k])  # noqa
-    elif selname == "lastk":
-        sel_in = lambda inds, k: list(reversed(inds))[:k]  # noqa
-    else:
-        sel_in = lambda inds, k: [inds[rng.randrange(len(inds))] for _ in range(k)]  # noqa
-    tb.register("select", wrap_select(sel_in, selname == "best"))
+
+    def register_select(selname):
+        if selname == "best":
+            sel_in = tools.selBest
+        elif selname == "tournament":
+            sel_in = lambda inds, k: tools.selTournament(inds, k, tournsize=2)  # noqa
+        elif selname == "firstk":
+            sel_in = lambda inds, k: list(inds[:k])  # noqa
+        elif selname == "lastk":
+            sel_in = lambda inds, k: list(reversed(inds))[:k]  # noqa
+        elif selname == "identity":
+            # hands back the very list it was given when everything is requested
+            sel_in = lambda inds, k: inds if k == len(inds) else list(inds[:k])  # noqa
+        elif selname == "tuple":
+            sel_in = lambda inds, k: tuple(inds[:k])  # noqa
+        else:
+            sel_in = lambda inds, k: [inds[rng.randrange(len(inds))] for _ in range(k)]  # noqa
+        tb.register("select", wrap_select(sel_in, selname == "best"))
+
+    def new_ind(g, pre):
+        ind = Ind(g)
+        if pre:
+            ind.fitness.values = to_values(ev_pure(p, [int(x) for x in REC.geno(ind)]), cfg.get("evtype", "float"))
+        return ind
 
     # ---- initial population ----
     pop = []
-    if kind != "gu":
+    if cfg["kind"] != "gu":
         if tree_mode:
-            for _ in range(cfg["n"]):
-                pop.append(Ind(tb.expr()))
+            for i in range(cfg["n"]):
+                pop.append(new_ind(tb.expr(), cfg["preeval"][i]))
         else:
-            for g in cfg["genos"]:
-                pop.append(Ind(g))
-        for i, ind in enumerate(pop):
-            if cfg["preeval"][i]:
-                ind.fitness.values = tuple(float(v) for v in ev_pure(p, [int(x) for x in REC.geno(ind)]))
+            for i, g in enumerate(cfg["genos"]):
+                pop.append(new_ind(g, cfg["preeval"][i]))
         for (i, j) in cfg.get("alias", []):      # the same (valid) object listed twice
             pop[j] = pop[i]
-    objs = [describe(i) for i in pop]
-    pop_uids = [o[0] for o in objs]
-    seen = set()
-    objs = [o for o in objs if not (o[0] in seen or seen.add(o[0]))]
-    REC.caller = pop if kind != "gu" else None
-    stats = make_stats(tools) if cfg.get("stats", True) else None
-    hof = make_hof(tools, cfg.get("hofsize", 1)) if cfg.get("hof", True) else None
+    stats = make_stats(tools, cfg.get("stats_variant", "snap")) if cfg.get("stats", True) else None
+
+    def fresh_hof():
+        return make_hof(tools, cfg.get("hofsize", 1), cfg.get("hof_variant", "hof"), similar) if cfg.get("hof", True) else None
+    hof = fresh_hof()
     REC.hof = hof
 
     generated = []
-    if kind == "gu":
-        def generate():
-            with quiet():
-                k = cfg["gu_sizes"][len(generated)]
-                out = []
-                for _ in range(k):
-                    ind = Ind([rng.randint(0, 3) for _ in range(rng.randint(1, 4))])
-                    if rng.random() < cfg.get("gu_stale", 0.0):
-                        # an individual that already carries a (stale) fitness must be evaluated all the same
-                        ind.fitness.values = tuple(float(v + 1) for v in ev_pure(p, list(ind)))
-                    out.append(ind)
-                generated.append(out)
-                REC.ev.append(("generate", [describe(i) for i in out]))
-                return out
+    gu_state = {"sizes": [], "k": 0}
 
-        def update(population):
-            with quiet():
-                REC.ev.append(("update", [REC.uid(i) for i in population], population is generated[-1]))
-        tb.register("generate", generate)
-        tb.register("update", update)
+    def generate():
+        with quiet():
+            k = gu_state["sizes"][gu_state["k"]]
+            gu_state["k"] += 1
+            out = []
+            for _ in range(k):
+                ind = Ind([rng.randint(0, 3) for _ in range(rng.randint(1, 4))])
+                if rng.random() < cfg.get("gu_stale", 0.0):
+                    # an individual that already carries a (stale) fitness must be evaluated all the same
+                    ind.fitness.values = to_values([v + 1 for v in ev_pure(p, list(ind))])
+                out.append(ind)
+            generated.append(out)
+            REC.ev.append(("generate", [describe(i) for i in out]))
+            return out
+
+    def update(population):
+        with quiet():
+            REC.ev.append(("update", [REC.uid(i) for i in population], population is generated[-1]))
+    tb.register("generate", generate)
+    tb.register("update", update)
 
     # ---- variation wrappers (module globals of deap.algorithms) ----
     orig_and, orig_or = algorithms.varAnd, algorithms.varOr
@@ -401,48 +479,97 @@ def run_impl(cfg):
             REC.ev.append(("sorted",))
             return sorted(*a, **k)
 
-    algorithms.varAnd, algorithms.varOr = var_and, var_or
-    old_gp_random = gp.random
-    gp.random = RandomProxy(pyrandom.Random(cfg["seed"] + 2), cfg.get("grid"))
-    gp.sorted = marker_sorted
-    ngen = cfg["ngen"]
-    try:
+    def caller_actions(acts):
+        """what a caller may do to its own population between two runs"""
+        for act in acts:
+            if act[0] == "invalidate" and pop:
+                ind = pop[act[1] % len(pop)]
+                if len([x for x in pop if x is ind]) > 1:
+                    continue            # an unevaluated object listed twice is the known finding: not generated here
+                with quiet():
+                    if tree_mode or container == "creator_numpy_int8" or container == "creator_array_b":
+                        pass                # keep the genotype, just drop the fitness
+                    else:
+                        bump(ind)
+                del ind.fitness.values
+            elif act[0] == "immigrant":
+                pop.append(new_ind(tb.expr() if tree_mode else act[1], act[2]))
+            elif act[0] == "drop" and len(pop) > 2:
+                pop.pop(act[1] % len(pop))
+            elif act[0] == "replace" and pop:
+                pop[act[1] % len(pop)] = new_ind(tb.expr() if tree_mode else act[2], False)
+
+    results = []
+    out_sink = io.StringIO()
+    for li, leg in enumerate(legs):
+        kind = leg["kind"]
+        if li > 0:
+            with quiet():
+                caller_actions(leg.get("caller_ops", []))
+            if leg.get("fresh_hof", True):
+                hof = fresh_hof()
+                REC.hof = hof
+        register_select(leg.get("sel", "random"))
+        with quiet():
+            objs = [describe(i) for i in pop]
+        pop_uids = [o[0] for o in objs]
+        seen = set()
+        objs = [o for o in objs if not (o[0] in seen or seen.add(o[0]))]
+        REC.caller = pop if kind != "gu" else None
+        ev0 = len(REC.ev)
+        ngen = leg["ngen"]
+        ngenerated0 = len(generated)
+        if kind == "gu":
+            gu_state["sizes"], gu_state["k"] = leg["gu_sizes"], 0
+        verbose = bool(leg.get("verbose", False))
+        algorithms.varAnd, algorithms.varOr = var_and, var_or
+        old_gp_random = gp.random
+        gp.random = RandomProxy(pyrandom.Random(cfg["seed"] + 2 + li), leg.get("grid"))
+        gp.sorted = marker_sorted
         try:
-            if kind == "simple":
-                ret = algorithms.eaSimple(pop, tb, cfg["cxpb"], cfg["mutpb"], ngen, stats=stats, halloffame=hof, verbose=False)
-            elif kind == "plus":
-                ret = algorithms.eaMuPlusLambda(pop, tb, cfg["mu"], cfg["lam"], cfg["cxpb"], cfg["mutpb"], ngen,
-                                                stats=stats, halloffame=hof, verbose=False)
-            elif kind == "comma":
-                ret = algorithms.eaMuCommaLambda(pop, tb, cfg["mu"], cfg["lam"], cfg["cxpb"], cfg["mutpb"], ngen,
-                                                 stats=stats, halloffame=hof, verbose=False)
-            elif kind == "gu":
-                ret = algorithms.eaGenerateUpdate(tb, ngen, halloffame=hof, stats=stats, verbose=False)
-            else:
-                REC.len_on = True
-                ret = gp.harm(pop, tb, cfg["cxpb"], cfg["mutpb"], ngen, alpha=cfg["alpha"], beta=cfg["beta"],
-                              gamma=cfg["gamma"], rho=cfg["rho"], nbrindsmodel=cfg["nbr"], mincutoff=cfg["mincutoff"],
-                              stats=stats, halloffame=hof, verbose=False)
-        finally:
-            REC.len_on = False
-            algorithms.varAnd, algorithms.varOr = orig_and, orig_or
-            gp.random = old_gp_random
-            del gp.sorted
-    except DrawCap:
-        return {"skipped": "draw cap reached (acceptance loop did not terminate within the cap)"}
-    except Exception as e:  # noqa
-        return {"raised": type(e).__name__ + ": " + str(e)[:200]}
-    rpop, logbook = ret
-    obs = {"objs": objs, "pop0": pop_uids, "events": REC.ev, "ret_is_caller": (rpop is pop) if kind != "gu" else None,
-           "final": [describe(i) for i in rpop],
-           "caller_final": [describe(i) for i in pop],
-           "log_gen": list(logbook.select("gen")), "log_nevals": list(logbook.select("nevals")),
-           "log_snap": list(logbook.select("snap")) if stats is not None else None,
-           "hof_final": None if hof is None or len(hof.items) == 0 else fitvals(hof[0]),
-           "hof_all": None if hof is None else [fitvals(h) for h in hof.items],
-           "gu_ret_is_last": (kind == "gu") and ((ngen == 0 and rpop == [] and not generated) or
-                                                 (ngen > 0 and rpop is generated[-1]))}
-    return obs
+            try:
+                with contextlib.redirect_stdout(out_sink):
+                    if kind == "simple":
+                        ret = algorithms.eaSimple(pop, tb, leg["cxpb"], leg["mutpb"], ngen, stats=stats, halloffame=hof, verbose=verbose)
+                    elif kind == "plus":
+                        ret = algorithms.eaMuPlusLambda(pop, tb, leg["mu"], leg["lam"], leg["cxpb"], leg["mutpb"], ngen,
+                                                        stats=stats, halloffame=hof, verbose=verbose)
+                    elif kind == "comma":
+                        ret = algorithms.eaMuCommaLambda(pop, tb, leg["mu"], leg["lam"], leg["cxpb"], leg["mutpb"], ngen,
+                                                         stats=stats, halloffame=hof, verbose=verbose)
+                    elif kind == "gu":
+                        ret = algorithms.eaGenerateUpdate(tb, ngen, halloffame=hof, stats=stats, verbose=verbose)
+                    else:
+                        REC.len_on = True
+                        ret = gp.harm(pop, tb, leg["cxpb"], leg["mutpb"], ngen, alpha=leg["alpha"], beta=leg["beta"],
+                                      gamma=leg["gamma"], rho=leg["rho"], nbrindsmodel=leg["nbr"], mincutoff=leg["mincutoff"],
+                                      stats=stats, halloffame=hof, verbose=verbose)
+            finally:
+                REC.len_on = False
+                algorithms.varAnd, algorithms.varOr = orig_and, orig_or
+                gp.random = old_gp_random
+                del gp.sorted
+        except DrawCap:
+            results.append((leg, {"skipped": "draw cap reached (acceptance loop did not terminate within the cap)"}))
+            break
+        except Exception as e:  # noqa
+            results.append((leg, {"raised": type(e).__name__ + ": " + str(e)[:200]}))
+            break
+        rpop, logbook = ret
+        mine = generated[ngenerated0:]
+        obs = {"objs": objs, "pop0": pop_uids, "events": REC.ev[ev0:],
+               "ret_is_caller": (rpop is pop) if kind != "gu" else None,
+               "final": [describe(i) for i in rpop],
+               "caller_final": [describe(i) for i in pop],
+               "log_gen": list(logbook.select("gen")), "log_nevals": list(logbook.select("nevals")),
+               "hof_final": None if hof is None or len(hof.items) == 0 else fitvals(hof[0]),
+               "hof_all": None if hof is None else [fitvals(h) for h in hof.items],
+               "printed": len(out_sink.getvalue()),
+               "fresh_hof": li == 0 or leg.get("fresh_hof", True),
+               "gu_ret_is_last": (kind == "gu") and ((ngen == 0 and list(rpop) == [] and not mine) or
+                                                     (ngen > 0 and bool(mine) and rpop is mine[-1]))}
+        results.append((leg, obs))
+    return results
 
 
 # --------------------------------------------------------------------------------------------
@@ -465,8 +592,8 @@ def wkey(w, f):
 # --------------------------------------------------------------------------------------------
 # the property statement evaluated on the recording (independent of the Coq model)
 # --------------------------------------------------------------------------------------------
-def oracle(cfg, obs):
-    """returns a list of violation descriptions"""
+def oracle(cfg, obs, carry=None):
+    """returns a list of violation descriptions.  carry: what a hall of fame shared with earlier legs was shown"""
     bad = []
     kind, ngen, w, p = cfg["kind"], cfg["ngen"], cfg["weights"], tuple(cfg["evp"])
     gens, rest = split_generations(obs)
@@ -481,8 +608,10 @@ def oracle(cfg, obs):
     if any(e[0] in ("evaluate", "hof", "select", "var") for e in rest):
         bad.append("operator calls after the last record")
     n0 = len(obs["pop0"])
-    shown = set()
-    best_seen = []           # every fitness the logbook's statistics saw, every evaluated fitness
+    if carry is None:
+        carry = {"shown": set(), "best_seen": []}
+    shown = carry["shown"]
+    best_seen = carry["best_seen"]    # every fitness the logbook's statistics saw, every evaluated fitness
     state = {u: (g, f) for (u, g, f) in obs["objs"]}
     prev_snap = None
     for gi, evs in enumerate(gens):
@@ -550,7 +679,7 @@ def oracle(cfg, obs):
             for (u, g, f) in snap:
                 if u not in shown:
                     bad.append("gen %d: population member %d never passed to the hall of fame" % (gen, u))
-            best_seen += [f for (u, g, f) in snap if f is not None] + [ev_pure(p, g) for (u, g) in calls]
+            best_seen.extend([f for (u, g, f) in snap if f is not None] + [ev_pure(p, g) for (u, g) in calls])
             for f in best_seen:
                 if hbest is None or wkey(w, hbest) < wkey(w, f):
                     bad.append("gen %d: hall of fame best %r is worse than logged fitness %r" % (gen, hbest, f))
@@ -622,7 +751,7 @@ def cug(u, g):
 
 
 def cevp(p):
-    return "(mkevp %s %s %s %s)" % (cz(p[0]), cz(p[1]), cz(p[2]), cbool(p[3]))
+    return "(mkevp %s %s %s %s %s)" % (cz(p[0]), cz(p[1]), cz(p[2]), cbool(p[3]), cz(p[4] if len(p) > 4 else 0))
 
 
 def common_observables(cfg, obs, gens):
@@ -702,30 +831,61 @@ PROBS = [0.0, 0.25, 0.5, 0.75, 1.0]
 DUP_SIG = "C03.duplicate_invalid_object_evaluated_twice"
 
 
-def rand_evp(rng):
-    return [rng.choice([1, 2, 3]), rng.randint(0, 5), rng.choice([3, 5, 7, 11]), rng.random() < 0.3]
+NEEDS_K_LE_LEN = ("best", "firstk", "lastk", "identity", "tuple")
+ULP_VS = 2 ** 23             # spacing of doubles in [2**29, 2**30): values 1e9 + k * 2**-23 differ by one ulp
 
 
-def rand_weights(rng, two):
-    w = [rng.choice([1, -1, 1, 2])]
+def rand_evp(rng, vs):
+    if vs == ULP_VS:
+        off = 10 ** 9 * ULP_VS
+    elif vs == 1:
+        off = rng.choice([0, 0, -50, 10 ** 9])
+    else:
+        off = rng.choice([0, -20])
+    return [rng.choice([1, 2, 3]), rng.randint(0, 5), rng.choice([3, 5, 7, 11]), rng.random() < 0.3, off]
+
+
+def rand_weights(rng, two, vs):
+    """encoded weights (integers) and their scale: real weight = w / wscale"""
+    wscale = rng.choice([1, 1, 2])
+    if wscale == 1:
+        pool = [1, -1, 1, -1, 2, -2] + ([] if vs == ULP_VS else [3, -3])
+    else:
+        pool = [1, -1, 2, -2, 4, -4] + ([] if vs == ULP_VS else [6, -6])       # +-0.5, +-1, +-2, +-3
+    w = [rng.choice(pool)]
     if two:
-        w.append(rng.choice([1, -1]))
-    return w
+        w.append(rng.choice(pool))
+    return w, wscale
 
 
-def base_cfg(rng, kind, n=None, ngen=None):
-    evp = rand_evp(rng)
-    n = rng.randint(0, 5) if n is None else n
-    cfg = {"kind": kind, "evp": evp, "weights": rand_weights(rng, evp[3]), "seed": rng.randrange(10 ** 9),
-           "ngen": rng.randint(0, 4) if ngen is None else ngen, "n": n,
-           "genos": [[rng.randint(0, 3) for _ in range(rng.randint(1, 5))] for _ in range(n)],
+def rand_geno(rng, cfg):
+    if cfg.get("binary"):
+        return [rng.randint(0, 1) for _ in range(cfg["L"])]
+    return [rng.randint(0, 3) for _ in range(rng.randint(1, 5))]
+
+
+def base_cfg(rng, kind, n=None, ngen=None, big=False):
+    vs = rng.choice([1, 1, 1, 8, ULP_VS, 2 ** 30])
+    evp = rand_evp(rng, vs)
+    w, wscale = rand_weights(rng, evp[3], vs)
+    n = rng.randint(0, 8 if big else 5) if n is None else n
+    cfg = {"kind": kind, "evp": evp, "weights": w, "wscale": wscale, "vs": vs, "seed": rng.randrange(10 ** 9),
+           "ngen": rng.randint(0, 8 if big else 4) if ngen is None else ngen, "n": n,
+           "evtype": rng.choice(["float", "float", "npfloat", "list", "nparray"] + (["int"] if vs == 1 else [])),
            "preeval": [rng.random() < rng.choice([0.0, 0.5, 1.0]) for _ in range(n)],
-           "hofsize": rng.choice([1, 1, 2, 3]),
+           "hofsize": rng.choice([1, 1, 2, 3]), "hof_variant": rng.choice(["hof", "hof", "pareto"]),
+           "stats_variant": rng.choice(["snap", "snap", "multi"]), "verbose": rng.random() < 0.15,
            "opstyle": rng.choice(["inplace", "functional", "swapped", "fresh", "mixed", "mixed"]),
            "map": rng.choice(["default", "default", "eager"]),
-           "ops": rng.choice(["scripted", "scripted", "real"])}
-    if cfg["ops"] == "real":
+           "ops": rng.choice(["scripted", "scripted", "real"]),
+           "container": "plain" if kind in ("harm", "gu") else rng.choice(["plain", "plain", "creator_list", "creator_array_b",
+                                                                           "creator_numpy_int8"])}
+    cfg["L"] = rng.randint(2, 6)
+    cfg["binary"] = cfg["container"] in ("creator_array_b", "creator_numpy_int8")
+    if cfg["ops"] == "real" and not cfg["binary"]:
         cfg["genos"] = [[rng.randint(0, 1) for _ in range(rng.randint(2, 6))] for _ in range(n)]
+    else:
+        cfg["genos"] = [rand_geno(rng, cfg) for _ in range(n)]
     # the same valid object listed twice in the caller's list
     if n >= 2 and rng.random() < 0.15:
         i, j = rng.sample(range(n), 2)
@@ -737,7 +897,7 @@ def base_cfg(rng, kind, n=None, ngen=None):
 def gen_simple(rng, **k):
     cfg = base_cfg(rng, "simple", **k)
     cfg["cxpb"], cfg["mutpb"] = rng.choice(PROBS), rng.choice(PROBS)
-    cfg["sel"] = rng.choice(["random", "random", "tournament", "best", "firstk", "lastk"]) if cfg["n"] > 0 else "firstk"
+    cfg["sel"] = rng.choice(["random", "random", "tournament", "best", "firstk", "lastk", "identity", "tuple"]) if cfg["n"] > 0 else "firstk"
     return cfg
 
 
@@ -753,12 +913,10 @@ def gen_mu(rng, kind, **k):
             mu = 0
         if rng.random() < 0.05 and kind == "plus":
             lam = 0
+        if rng.random() < 0.15:
+            mu = lam if kind == "comma" else n + lam      # k = n: everything is selected
         cfg["mu"], cfg["lam"] = mu, lam
-    cfg["sel"] = rng.choice(["random", "best", "best", "tournament"])
-    if kind == "plus" and cfg["sel"] == "best" and cfg["mu"] > n + cfg["lam"]:
-        cfg["mu"] = n + cfg["lam"]
-    if kind == "plus" and cfg["lam"] == 0 and cfg["sel"] != "random":
-        cfg["mu"] = min(cfg["mu"], n)
+    cfg["sel"] = rng.choice(["random", "best", "best", "tournament", "firstk", "identity", "tuple"])
     cx = rng.choice(PROBS)
     mut = rng.choice([q for q in PROBS if q + cx <= 1.0])
     cfg["cxpb"], cfg["mutpb"] = cx, mut
@@ -772,15 +930,16 @@ def gen_gu(rng, **k):
     return cfg
 
 
-def gen_harm(rng, n=None, ngen=None):
-    cfg = base_cfg(rng, "harm", n=rng.randint(1, 5) if n is None else n, ngen=ngen)
+def gen_harm(rng, n=None, ngen=None, **k):
+    cfg = base_cfg(rng, "harm", n=rng.randint(1, 5) if n is None else n, ngen=ngen, **k)
     cfg["ops"] = "scripted"
     cfg["genos"] = [[rng.randint(0, 3) for _ in range(rng.randint(1, 6))] for _ in range(cfg["n"])]
     cfg["cxpb"], cfg["mutpb"] = rng.choice(PROBS), rng.choice(PROBS)
-    cfg["sel"] = rng.choice(["random", "random", "tournament", "best"])
-    cfg["alpha"], cfg["beta"], cfg["gamma"], cfg["rho"] = 0.05, 10, 0.25, 0.9
-    cfg["nbr"] = rng.randint(max(1, cfg["n"]), 8)
-    cfg["mincutoff"] = rng.choice([1, 2, 3, 20])
+    cfg["sel"] = rng.choice(["random", "random", "tournament", "best", "firstk", "tuple"])
+    cfg["alpha"], cfg["beta"] = rng.choice([0.05, 0.05, 0, 0.5]), rng.choice([10, 10, 1])
+    cfg["gamma"], cfg["rho"] = rng.choice([0.25, 0.25, 1.0]), rng.choice([0.9, 0.9, 0.5, 1.0])
+    cfg["nbr"] = rng.randint(1, 8)
+    cfg["mincutoff"] = rng.choice([0, 1, 2, 3, 20])
     cfg["grid"] = rng.choice([None, None, [0.0, 0.125, 0.25, 0.375, 0.5, 0.625, 0.75, 0.875]])
     return fix_guards(cfg)
 
@@ -789,13 +948,76 @@ def fix_guards(cfg):
     """keep a configuration inside the guards under which the real code does not raise"""
     kind, n = cfg["kind"], cfg["n"]
     if kind == "harm":
-        if n < 2 and cfg["sel"] == "best":
-            cfg["sel"] = "random"          # selBest(population, 2) cannot return two individuals
+        if n < 2 and cfg["sel"] in NEEDS_K_LE_LEN:
+            cfg["sel"] = "random"          # select(population, 2) cannot return two individuals
+        # sortednatural[int(len(population) * rho - 1):] must not be empty; nbrindsmodel == -1 is the default
+        if cfg["nbr"] != -1:
+            cfg["nbr"] = max(cfg["nbr"], 1, int(n * cfg["rho"] - 1) + 1)
     if kind in ("plus", "comma"):
         if cfg["cxpb"] + cfg["mutpb"] > 1.0:
             cfg["mutpb"] = 0.0
+        if kind == "comma" and cfg["mu"] > cfg["lam"]:
+            cfg["mu"] = cfg["lam"]
+        if n == 0:
+            cfg["mu"], cfg["lam"] = 0, 0       # nothing to vary, nothing to select
+        elif cfg["mu"] == 0 and cfg["ngen"] > 1 and cfg["lam"] > 0:
+            cfg["mu"] = 1                      # an emptied population cannot produce lambda > 0 offspring
+        if kind == "plus" and cfg["sel"] in NEEDS_K_LE_LEN and cfg["mu"] > n + cfg["lam"]:
+            cfg["mu"] = n + cfg["lam"]
         if min(n, cfg["mu"]) < 2 and not (n >= 2 and cfg["ngen"] <= 1):
             cfg["cxpb"] = 0.0              # random.sample(population, 2) needs two individuals
+    return cfg
+
+
+LEG_KEYS = ("kind", "ngen", "mu", "lam", "cxpb", "mutpb", "sel", "alpha", "beta", "gamma", "rho", "nbr", "mincutoff",
+            "grid", "gu_sizes", "verbose")
+
+
+def size_after(leg, n):
+    return n if leg["kind"] in ("simple", "harm", "gu") or leg["ngen"] == 0 else leg["mu"]
+
+
+def add_legs(rng, cfg, nlegs=None):
+    """successive runs on the same population / toolbox / statistics object (and, half of the time, the same hall
+    of fame), with the caller editing its population in between"""
+    if cfg.get("alias") or cfg.get("tree"):
+        return cfg
+    n = size_after(cfg, cfg["n"])
+    legs = []
+    for _ in range(nlegs or rng.randint(1, 2)):
+        acts = []
+        if cfg["kind"] != "gu":
+            for _ in range(rng.randint(0, 3)):
+                t = rng.choice(["invalidate", "invalidate", "immigrant", "drop", "replace"])
+                if t == "invalidate":
+                    acts.append(("invalidate", rng.randrange(8)))
+                elif t == "immigrant":
+                    acts.append(("immigrant", rand_geno(rng, cfg) if not (cfg["ops"] == "real" and not cfg["binary"])
+                                 else [rng.randint(0, 1) for _ in range(rng.randint(2, 6))], rng.random() < 0.5))
+                    n += 1
+                elif t == "drop":
+                    acts.append(("drop", rng.randrange(8)))
+                    if n > 2:
+                        n -= 1
+                else:
+                    acts.append(("replace", rng.randrange(8), rand_geno(rng, cfg) if not (cfg["ops"] == "real" and not cfg["binary"])
+                                 else [rng.randint(0, 1) for _ in range(rng.randint(2, 6))]))
+        if cfg["kind"] == "gu":
+            src = gen_gu(rng, ngen=rng.randint(0, 3))
+        else:
+            kinds = ["simple", "plus", "comma"] + (["harm"] if cfg["container"] == "plain" and n >= 1 else [])
+            k = rng.choice(kinds)
+            ng = rng.randint(0, 3)
+            src = gen_simple(rng, n=n, ngen=ng) if k == "simple" else gen_harm(rng, n=n, ngen=ng) if k == "harm" else gen_mu(rng, k, n=n, ngen=ng)
+        leg = {key: src[key] for key in LEG_KEYS if key in src}
+        leg["n"] = n
+        leg["caller_ops"] = acts
+        leg["fresh_hof"] = rng.random() < 0.5
+        merged = fix_guards(dict(cfg, **leg))
+        leg = {key: merged[key] for key in list(leg.keys())}
+        legs.append(leg)
+        n = size_after(merged, n)
+    cfg["legs"] = legs
     return cfg
 
 
@@ -835,31 +1057,43 @@ def main(run):
     rng = run.rng
     terms, cases = [], []
     stats = {"skipped": 0}
+    cov = {}
 
     def do(cfg, corr=True):
-        obs = run_impl(cfg)
-        pub = cfg_public(cfg)
-        nontriv = cfg["ngen"] > 0 and (cfg["kind"] == "gu" or cfg["n"] > 0)
-        run.note_case(pub, nontriv, sample=pub if len(cases) % 53 == 0 else None)
-        if "skipped" in obs:
-            stats["skipped"] += 1
-            return
-        if "raised" in obs:
-            run.oracle_violation("the loop raised " + obs["raised"], pub, observed=obs["raised"])
-            return
-        bad = oracle(cfg, obs) if cfg.get("stats", True) else oracle_nostats(cfg, obs)
-        if cfg.get("dup_invalid"):
-            # known finding: the same unevaluated object listed twice in the caller's population is
-            # evaluated once per occurrence; anything else going wrong on this input is a real violation
-            known = [b for b in bad if "evaluated more than once" in b]
-            bad = [b for b in bad if "evaluated more than once" not in b]
-            if known:
-                run.oracle_violation(known[0], pub, signature=DUP_SIG, observed=known)
-        if bad:
-            run.oracle_violation(bad[0], pub, observed=bad[:5])
-        if corr:
-            terms.append(coq_term(cfg, obs))
-            cases.append(pub)
+        results = run_impl(cfg)
+        carry = None
+        for li, (leg, obs) in enumerate(results):
+            pub = cfg_public(leg)
+            pub["leg"] = li
+            for key in ("kind", "container", "vs", "evtype", "hof_variant", "stats_variant", "verbose", "sel", "opstyle", "wscale"):
+                cov.setdefault(key, {})
+                cov[key][str(leg.get(key))] = cov[key].get(str(leg.get(key)), 0) + 1
+            cov.setdefault("leg", {})
+            cov["leg"][str(li) + ("" if obs.get("fresh_hof", True) else "-shared-hof")] = \
+                cov["leg"].get(str(li) + ("" if obs.get("fresh_hof", True) else "-shared-hof"), 0) + 1
+            nontriv = leg["ngen"] > 0 and (leg["kind"] == "gu" or leg.get("n", 0) > 0)
+            run.note_case(pub, nontriv, sample=pub if len(cases) % 53 == 0 else None)
+            if "skipped" in obs:
+                stats["skipped"] += 1
+                return
+            if "raised" in obs:
+                run.oracle_violation("the loop raised " + obs["raised"], pub, observed=obs["raised"])
+                return
+            if carry is None or obs.get("fresh_hof", True):
+                carry = {"shown": set(), "best_seen": []}
+            bad = oracle(leg, obs, carry) if leg.get("stats", True) else oracle_nostats(leg, obs)
+            if leg.get("dup_invalid"):
+                # known finding: the same unevaluated object listed twice in the caller's population is
+                # evaluated once per occurrence; anything else going wrong on this input is a real violation
+                known = [b for b in bad if "evaluated more than once" in b]
+                bad = [b for b in bad if "evaluated more than once" not in b]
+                if known:
+                    run.oracle_violation(known[0], pub, signature=DUP_SIG, observed=known)
+            if bad:
+                run.oracle_violation(bad[0], pub, observed=bad[:5])
+            if corr and obs.get("fresh_hof", True) and leg.get("stats", True) and leg.get("hof", True):
+                terms.append(coq_term(leg, obs))
+                cases.append(pub)
 
     # the repaired defect, replayed on every run
     do({"kind": "gu", "evp": [1, 0, 7, False], "weights": [1], "seed": 1, "ngen": 0, "n": 0, "genos": [], "preeval": [],
@@ -910,19 +1144,34 @@ def main(run):
                         cfg["mu"] = max(2, cfg["mu"])
                         cfg["lam"] = max(cfg["mu"], cfg["lam"], 3)
                     cfg.update({"ops": "scripted", "opstyle": st, "cxpb": cx, "mutpb": mut,
-                                "preeval": [True] * cfg["n"]})
+                                "preeval": [True] * cfg["n"], "binary": False,
+                                "container": "plain" if kind == "harm" else rng.choice(["plain", "creator_list"])})
                     if kind != "harm":
                         cfg["genos"] = [[rng.randint(0, 3) for _ in range(rng.randint(1, 5))] for _ in range(cfg["n"])]
                     do(fix_guards(cfg))
 
     # ---- seeded random ----
-    nrand = run.scale(120, 1000)
-    for _ in range(nrand):
-        do(gen_simple(rng))
-        do(gen_mu(rng, "plus"))
-        do(gen_mu(rng, "comma"))
-        do(gen_gu(rng))
-        do(gen_harm(rng))
+    nrand = run.scale(100, 800)
+
+    def maybe_legs(cfg):
+        return add_legs(rng, cfg) if rng.random() < 0.3 else cfg
+    for i in range(nrand):
+        big = run.thorough and i % 4 == 0
+        do(maybe_legs(gen_simple(rng, big=big)))
+        do(maybe_legs(gen_mu(rng, "plus", big=big)))
+        do(maybe_legs(gen_mu(rng, "comma", big=big)))
+        do(maybe_legs(gen_gu(rng, big=big)))
+        do(maybe_legs(gen_harm(rng, big=big)))
+
+    # ---- state carried between calls: every loop followed by every loop on the same population, toolbox,
+    # Statistics object and (shared or fresh) hall of fame, the caller editing the population in between ----
+    for first in ("simple", "plus", "comma", "harm", "gu"):
+        for rep in range(run.scale(4, 16)):
+            n = rng.randint(2, 4)
+            cfg = gen_simple(rng, n=n) if first == "simple" else gen_harm(rng, n=n) if first == "harm" else \
+                gen_gu(rng) if first == "gu" else gen_mu(rng, first, n=n)
+            cfg["alias"] = []
+            do(add_legs(rng, cfg, nlegs=2))
     # a map that evaluates out of submission order but returns results in order (oracle only: the
     # model's call log is in submission order, which the statement does not claim)
     for _ in range(run.scale(15, 150)):
@@ -964,6 +1213,7 @@ def main(run):
             do(cfg, corr=False)
 
     run.extra_cov["skipped_nonterminating"] = stats["skipped"]
+    run.extra_cov["dimensions"] = cov
     run.correspond("loops", "C03", terms, cases, shard=run.scale(60, 120))
     for i, (t, c) in enumerate(zip(big_terms, big_cases)):
         run.correspond("harm_default_%d" % i, "C03", [t], [c])
